@@ -96,9 +96,45 @@ def translate(build, max_l):
             c["LA"], c["LB"], c["lam"], c["nbase"], "true" if c["unrolled"] else "false", tl(c["triplesA"]), tl(c["triplesB"])))
     out.append(",\n".join(rows) + "]")
     out += ["", "end Ecpint.Gen"]
+    # the unrolled term lists, with the coefficient literal exactly as the generator printed it
+    tout = ["-- GENERATED by translate/qclasses.py: term lists of the unrolled classes -- do not edit", "namespace Ecpint.Gen", "set_option maxRecDepth 1000000", "",
+            "structure RawTerm where", "  na : Nat", "  nb : Nat", "  mu : Nat", "  coef : Float", "  ca : Nat × Nat × Nat", "  cb : Nat × Nat × Nat",
+            "  rad : Nat × Nat × Nat", "  sa : Nat × Nat", "  sb : Nat × Nat", ""]
+    names = []
+    for key in sorted(classes):
+        c = classes[key]
+        if not c["unrolled"]:
+            continue
+        nm = "terms_%d_%d_%d" % key
+        names.append((key, nm))
+        def lit(t):
+            v = t["coef_text"]
+            if v in ("nan", "-nan", "inf", "-inf"):
+                raise TranslateError("class %s: coefficient %s" % (key, v))
+            neg = v.startswith("-")
+            v = v.lstrip("+-")
+            if "." not in v and "e" not in v.lower():
+                v += ".0"
+            return ("(-%s)" % v) if neg else v
+        # chunks keep the elaborator's recursion shallow
+        chunks = [c["terms"][i:i + 200] for i in range(0, len(c["terms"]), 200)]
+        for ci, ch in enumerate(chunks):
+            tout.append("def %s_%d : List RawTerm := [" % (nm, ci))
+            tout.append(",\n".join("  ⟨%d, %d, %d, %s, (%d, %d, %d), (%d, %d, %d), (%d, %d, %d), (%d, %d), (%d, %d)⟩" % (
+                t["na"], t["nb"], t["mu"], lit(t), t["CA"][1], t["CA"][2], t["CA"][3], t["CB"][1], t["CB"][2], t["CB"][3],
+                t["rad"][0], t["rad"][1], t["rad"][2], t["SA"][0], t["SA"][1], t["SB"][0], t["SB"][1]) for t in ch) + "]")
+        tout.append("def %s : List RawTerm := %s" % (nm, " ++ ".join("%s_%d" % (nm, ci) for ci in range(len(chunks))) or "[]"))
+        for t in c["terms"]:
+            if t["CA"][0] != t["na"] or t["CB"][0] != t["nb"]:
+                raise TranslateError("class %s: term addresses CA/CB of another Cartesian function" % (key,))
+    tout.append("")
+    tout.append("def unrolledTerms (LA LB lam : Nat) : Option (List RawTerm) :=")
+    tout.append("  " + " else ".join("if LA = %d ∧ LB = %d ∧ lam = %d then some %s" % (k[0], k[1], k[2], nm) for k, nm in names) + (" else none" if names else "none"))
+    tout += ["", "end Ecpint.Gen"]
     stats = {"classes": len(classes), "unrolled": sum(1 for c in classes.values() if c["unrolled"]),
              "triples": sum(len(c["triplesA"]) + len(c["triplesB"]) for c in classes.values()),
              "unrolled_terms": sum(len(c["terms"]) for c in classes.values() if c["unrolled"])}
+    classes["__terms_lean__"] = "\n".join(tout) + "\n"
     return "\n".join(out) + "\n", stats, classes
 
 
@@ -106,9 +142,11 @@ if __name__ == "__main__":
     sys.path.insert(0, os.path.join(os.path.dirname(os.path.abspath(__file__)), ".."))
     from vlib import build as B
     t, st, cl = translate(B.build("plain"), 5)
-    print(st, len(t))
+    print(st, len(t), len(cl["__terms_lean__"]))
     req = set()
-    for c in cl.values():
+    for k, c in cl.items():
+        if k == "__terms_lean__":
+            continue
         for tr in c["triplesA"] + c["triplesB"]:
             req.add(tr)
     print(len(req), max(t[0] for t in req), max(t[1] for t in req), max(t[2] for t in req))
